@@ -173,7 +173,7 @@ def run(ctx):
     ctx.rule = ('atoms = 7 address kinds x 20-byte payloads (first byte in %s, last byte in %s, filler %s) x entrypoints {none, default, a, 31 chars, set_default, 1st, do, root, set_delegate, defaults}; '
                 'key hashes tz1-tz4, keys of 4 curves, signatures of 5 kinds, chain ids over the same payload classes; Leg A: TLC forges and reads back every atom with the '
                 'typed reader, the length-only reader and the reader of the neighbouring type; Leg B: every behaviour is replayed through the Michelson type classes '
-                '(readable -> optimized must be the model bytes; optimized -> readable must be the model value) and blind_unpack; non-trivial = every comparison' % (firsts, lasts, fillers))
+                '(readable -> optimized must be the model bytes; optimized -> readable must be the model value) and blind_unpack; plus the chain ids of the public networks and every 4-byte literal written in the running sources; non-trivial = every comparison' % (firsts, lasts, fillers))
     ctx.assumptions = ['atoms are made concrete with an independent Base58Check encoder and the prefix bytes of the Tezos reference (not pytezos\' table)',
                        'a 64-byte signature read back is the generic signature with the same bytes (the optimized form carries no curve); "default" is no entrypoint',
                        'txr1 is observed through the tx_rollup_l2_address type only; blind_unpack only where the byte length determines the type',
@@ -197,8 +197,46 @@ def run(ctx):
     expect = len(fillers) * len(firsts) * len(lasts) * (7 * 10 + 4 + 4 + 5 + 1) + 4      # + the PACK look-alikes
     if n_atoms != expect:
         raise MachineryError('TLC exported %d atoms, expected %d' % (n_atoms, expect))
+    explicit_chain_ids(ctx)
     ctx.second_pass()
     ctx.exhaustive = True
+
+
+WELL_KNOWN_CHAINS = ['7a06a770', 'af1864d9', '1395aa01', '959fc7ee', '9b6c6d97', '2f6cbd61', 'ed9d217c', 'f49af95b', '56b44a47', '8fc05f5e', 'c3a7ab4b']
+
+
+def source_chain_ids():
+    """4-byte payloads written out in the running pytezos sources (hex literals of 8 digits, Net.. literals): if the code treats some chain id
+    specially (a table of known networks, seeded C10_13), that chain id is in its text.  Only *which* payloads are tried comes from the code;
+    what each must forge to and read back as is the model's rule (the optimized form of a chain id is its 4 bytes)."""
+    import os, re
+    import pytezos
+    root = os.path.dirname(pytezos.__file__)
+    found = set()
+    for rel in ('michelson/forge.py', 'michelson/types/domain.py', 'michelson/micheline.py', 'crypto/encoding.py', 'michelson/types/core.py', 'rpc/__init__.py', 'client.py'):
+        try:
+            txt = open(os.path.join(root, rel), encoding='utf-8').read()
+        except OSError:
+            continue
+        for m in re.finditer(r"""['"]([0-9a-fA-F]{8})['"]""", txt):
+            found.add(m.group(1).lower())
+        for m in re.finditer(r'Net[1-9A-HJ-NP-Za-km-z]{12}', txt):
+            raw = b58ref.unb58(m.group(0))
+            if raw is not None and len(raw) == 11 and b58ref.check_ok(raw):
+                found.add(raw[3:7].hex())
+    return sorted(found)
+
+
+def explicit_chain_ids(ctx):
+    n = 0
+    for hx in sorted(set(WELL_KNOWN_CHAINS) | set(source_chain_ids())):
+        payload = tuple(bytes.fromhex(hx))
+        atom = ('chain', 'net', payload)
+        compare(ctx, atom, 'chain_id', payload, atom)
+        ctx.again(compare, ctx, atom, 'chain_id', payload, atom)
+        ctx.replayed += 1
+        n += 1
+    ctx.extra['explicit_chain_ids'] = n
 
 
 def _tup(x):
